@@ -175,7 +175,9 @@ def build(x):
 ''')
     up = x.method(F, 'WatermarkFrontier', 'update'); up.name_result('r')
     up.sub('V-SUBST', r'&mut self\.map\[&coord\]', 'self.map.index_mut(&coord)', detail='IndexMut sugar `&mut m[&k]` -> m.index_mut(&k)', must=True)
-    up.sub('V-SUBST', r'matches!\(t0, Some\(t\) if \*t (?P<op>[<>=!]+) ts\)', lambda m: f"matches!(*t0, Some(t) if t {m.group('op')} ts)", detail='match on `*t0` (Option<i64> is Copy) instead of through the &mut binding (Verus: no guard + by-mut-ref binding); comparison operator verbatim', must=True)
+    up.bind('t0', r'let (\w+)(?:\s*:\s*[^=;]+)? = self\.map\.index_mut\(')
+    up.bind('prev_frontier', r'let (\w+)(?:\s*:\s*[^=;]+)? = self\.front;')
+    up.sub('V-SUBST', r'matches!\((?P<t0>\w+), Some\((?P<t>\w+)\) if \*(?P=t) (?P<op>[<>=!]+) ts\)', lambda m: f"matches!(*{m.group('t0')}, Some({m.group('t')}) if {m.group('t')} {m.group('op')} ts)", detail='match on `*t0` (Option<i64> is Copy) instead of through the &mut binding (Verus: no guard + by-mut-ref binding); comparison operator verbatim', must=('matches!(' in up.text))
     up.add_spec('''        requires old(self).wf(), ''' + SH.FRONTIER_UPDATE_REQUIRES + '''
         ensures final(self).wf(), ''' + SH.FRONTIER_UPDATE_ENSURES.replace('final(self).entries() == old(self).entries().insert(coord, raised(old(self).entries()[coord], ts)),', 'final(self).entries() =~= old(self).entries().insert(coord, raised(old(self).entries()[coord], ts)),   // #obl:update.entry_raised_to_max_others_unchanged').replace('frontier_of(final(self).entries(), final(self).front()),', 'frontier_of(final(self).entries(), final(self).front()),   // #obl:update.front_is_min_of_entries').replace('r == announce(old(self).front(), final(self).front()),', 'r == announce(old(self).front(), final(self).front()),   // #obl:update.returns_new_frontier_iff_changed').replace('(r is Some && old(self).front() is Some) ==> r->0 > old(self).front()->0,', '(r is Some && old(self).front() is Some) ==> r->0 > old(self).front()->0,   // #obl:update.announced_watermarks_strictly_increase') + '''
 ''')
@@ -186,13 +188,14 @@ def build(x):
         proof { lemma_to_map(k0, v0, k0.len() as int); }
 ''')
     up.insert_before(re.compile(r'return None;'), '''proof {
-                let j = choose|i: int| 0 <= i < k0.len() && k0[i] == coord && *t0 == v0[i] && self.map.vals() == #[trigger] v0.update(i, *final(t0));
+                let j = choose|i: int| 0 <= i < k0.len() && k0[i] == coord && *@{t0} == v0[i] && self.map.vals() == #[trigger] v0.update(i, *final(@{t0}));
                 assert(self.map.vals() =~= v0);
                 assert(e0.contains_key(k0[j]) && e0[k0[j]] == v0[j]);
                 assert(self.entries() =~= e0.insert(coord, raised(e0[coord], ts)));
             }
             ''')
-    up.insert_before(re.compile(r'match \(prev_frontier, self\.front\)'), '''proof {
+    up.insert_after_stmt('self.front = self.compute_frontier()', '''
+        proof {
             let v1 = self.map.vals();
             let j = choose|i: int| 0 <= i < k0.len() && k0[i] == coord && v1 == #[trigger] v0.update(i, Some(ts));
             lemma_to_map_update(k0, v0, j, Some(ts));
@@ -201,9 +204,9 @@ def build(x):
             assert(self.entries() =~= e0.insert(coord, Some(ts)));
             self.lemma_frontier_of();
             // the frontier never decreases: every entry only grows
-            if prev_frontier is Some {
+            if @{prev_frontier} is Some {
                 let e1 = self.entries();
-                assert forall|c: Coord| e1.contains_key(c) implies (#[trigger] e1[c]) is Some && e1[c]->0 >= prev_frontier->0 by {
+                assert forall|c: Coord| e1.contains_key(c) implies (#[trigger] e1[c]) is Some && e1[c]->0 >= @{prev_frontier}->0 by {
                     assert(e0.contains_key(c));
                     if c == coord { } else { assert(e1[c] == e0[c]); }
                 }
@@ -213,7 +216,7 @@ def build(x):
         }
         ''')
     rs = x.method(F, 'WatermarkFrontier', 'reset')
-    rs.sub('V-SUBST', r'self\.map\.values_mut\(\)\.for_each\(\|v\| \*v = None\);', 'self.map.set_all_none();', detail='`.values_mut().for_each(|v| *v = None)` -> contracted stub set_all_none()', must=True)
+    rs.sub('V-SUBST', r'self\.map\.values_mut\(\)\.for_each\(\|(\w+)\| \*\1 = None\);|for (\w+) in self\.map\.values_mut\(\) \{\s*\*\2 = None;\s*\}', 'self.map.set_all_none();', detail='`.values_mut().for_each(|v| *v = None)` -> contracted stub set_all_none()', must=True)
     rs.insert_at_body_start('''
         let ghost k0 = self.map.keys();
         let ghost v0 = self.map.vals();
